@@ -35,6 +35,11 @@ fn gen_prog(r: &mut Rng) -> Vec<H> {
         "still = sh",
         "called = clo(0)",
         "ks = keys(rec3)",
+        // enumeration order of the built-in records (must not depend on the process / hash seed)
+        "kc = keys(constants)",
+        "ec = [entries(constants)[0][0], values(constants)[0], to_string(constants)]",
+        "spc = keys({...constants, extra: 1})",
+        "ki = [keys(inputs), to_string(inputs)]",
     ];
     // spellings whose meaning depends on letter case (kb = kilobits, kB = kilobytes, ...): a
     // process-wide cache keyed on something coarser than the spelling would make results depend on
